@@ -231,31 +231,38 @@ theorem colLoop_spec (f : Nat → Nat → Nat) (hf : ∀ x y, f x y < 8) (c h : 
 def p2pSpecTable (f : Nat → Nat → Nat) (cols : List Nat) (h : Nat) : List ((Nat × Nat) × Nat) :=
   cols.flatMap fun c => (List.range h).map fun r => ((c, r), f c r)
 
+/-- the P2P table region: 256 column blocks of 128 bytes -/
+def P2P_REGION : Nat := 32768
+
 theorem p2pCols_spec (f : Nat → Nat → Nat) (hf : ∀ x y, f x y < 8) (rd : Rd) (h : Nat) (hh : h ≤ 255)
-    (hrd : ∀ a n, SPINNAKER_RTR_P2P ≤ a → rd a n = readMem (p2pMem f) a n) (cols : List Nat) :
+    (hrd : ∀ a n, SPINNAKER_RTR_P2P ≤ a → a + n ≤ SPINNAKER_RTR_P2P + P2P_REGION →
+      rd a n = readMem (p2pMem f) a n) (cols : List Nat) (hc : ∀ c ∈ cols, c < 256) :
     p2pCols rd (((h + 7) / 8) * 4) h cols = .ok (p2pSpecTable f cols h) := by
   induction cols with
   | nil => rfl
   | cons c cs ih =>
+    have hc256 := hc c (by simp)
+    have ih := ih (fun c' hc' => hc c' (by simp [hc']))
     have haddr : SPINNAKER_RTR_P2P + ((256 * c) / 8) * 4 = SPINNAKER_RTR_P2P + 128 * c + 4 * 0 := by omega
     have hlen : ((h + 7) / 8) * 4 = 4 * ((h + 7) / 8 - 0) := by omega
     have hcol := colLoop_spec f hf c h hh h 0 (by omega)
     simp only [p2pCols, ih]
-    rw [hrd _ _ (by omega), haddr, hlen, Nat.mul_zero] at *
+    rw [hrd _ _ (by omega) (by unfold P2P_REGION; omega), haddr, hlen, Nat.mul_zero] at *
     rw [hcol]
     simp only [colRows, p2pSpecTable, List.flatMap_cons, Nat.mul_zero, Nat.sub_zero, Nat.zero_add, List.map_map]
     rfl
 
 theorem p2p_roundtrip_dims_lem (f : Nat → Nat → Nat) (hf : ∀ x y, f x y < 8) (rd : Rd) (w h : Nat)
     (hw : w ≤ 255) (hh : h ≤ 255)
-    (hrd : ∀ a n, SPINNAKER_RTR_P2P ≤ a → rd a n = readMem (p2pMem f) a n) :
+    (hrd : ∀ a n, SPINNAKER_RTR_P2P ≤ a → a + n ≤ SPINNAKER_RTR_P2P + P2P_REGION →
+      rd a n = readMem (p2pMem f) a n) :
     p2pTableOfDims rd (w * 256 + h) = .ok (p2pSpecTable f (List.range w) h) := by
   have e1 : ((w * 256 + h) >>> 8) &&& 0xFF = w := by
     rw [and_ff, Nat.shiftRight_eq_div_pow]; omega
   have e2 : ((w * 256 + h) >>> 0) &&& 0xFF = h := by
     rw [and_ff, Nat.shiftRight_eq_div_pow]; omega
   simp only [p2pTableOfDims, e1, e2]
-  exact p2pCols_spec f hf rd h hh hrd (List.range w)
+  exact p2pCols_spec f hf rd h hh hrd (List.range w) (fun c hc => by rw [List.mem_range] at hc; omega)
 
 
 end Rig.C14
